@@ -48,8 +48,13 @@ Definition warn_text (c : ccfg) : pstr :=
   ++ s " with skops.load, these types must be specified as 'trusted'".
 Definition info_text (c : ccfg) : pstr := s "No unknown types found in " ++ model_name c ++ s ".".
 
+(* os.path.exists(output) and os.path.samefile(input, output): the model's file system has no links, and the
+   input exists in every modelled configuration, so this is path equality after resolution *)
+Definition same_file (c : ccfg) : bool := path_eqb (out_path c) (in_path c).
+
 (* everything _convert_file does, in program order, before log-level filtering *)
 Definition convert_events (c : ccfg) : list cev * coutcome :=
+  if same_file c then ([], CExc EValue) else        (* D29 repaired: refuses to overwrite its own input *)
   let head := [CLog LDebug (s "Converting " ++ model_name c); COp (ReadAll (in_path c))] in
   match k_saved c with
   | Raise e => (head, CExc e)                               (* dumps raised: nothing else happens *)
